@@ -99,6 +99,8 @@ def w_direct(arg):
         nodes = [n for n in ast.walk(tree) if isinstance(n, (ast.stmt, ast.expr)) and hasattr(n, "lineno")
                  and not isinstance(getattr(n, "ctx", None), (ast.Store, ast.Del))]
         r = env.rng(PROP, "direct", case["id"])
+        if not nodes:  # an empty module (comments only): nothing to edit
+            continue
         for k in range(case.get("n", 6)):
             node = r.choice(nodes)
             is_stmt = isinstance(node, ast.stmt)
